@@ -26,7 +26,9 @@ THEOREMS = [
 ]
 RULE = ("circuits on 1-6 qubits over every gate family, several registers, barriers of every span, idle qubits, pre-placed cut gates; label "
         "sequences over arbitrary hashables incl. None for idle (and, as malformed input, non-idle) qubits, and automatic labelling; Pauli "
-        "lists incl. non-identity on idle qubits; non-trivial = at least two partitions or a barrier; distinct by payload")
+        "lists incl. non-identity on idle qubits; deterministic family: automatic labelling where a barrier (bridge, wide, full width, onto an "
+        "otherwise untouched qubit) is the only instruction joining two groups of qubits, with registers / idle qubits / pre-placed cut gates, "
+        "and no-barrier / explicit-label controls; non-trivial = at least two partitions or a barrier; distinct by payload")
 ASSUMPTIONS = ["QuantumCircuit.decompose (DAG round trip) may re-linearise instructions on disjoint wires: partition_problem subcircuits are compared per wire",
                "rustworkx.connected_components is modelled by label propagation", "uuid barrier tags are renamed by first occurrence",
                "T10.4 (`separate_recompose`) is proved for every semantics in which instructions on disjoint qubits commute and barriers do nothing "
@@ -76,7 +78,67 @@ def _numbered_label_cases():
                               "always_oracle": True})
 
 
+def _bridge_barrier_cases():
+    """AUTOMATIC labelling on circuits in which a barrier is the ONLY instruction joining two otherwise disconnected groups of qubits (a
+    two-qubit bridge, a wider barrier, a full-width one, a barrier onto a qubit nothing else touches), next to the same circuits without
+    the barrier / with explicit labels; one register and several, idle qubits, pre-placed cut gates.  A barrier is an instruction: the
+    qubits it spans are connected, so they form ONE partition, and the sub-observables belong to exactly the returned subcircuits."""
+    def g(name, *qs, params=None):
+        d = {"name": name, "qubits": list(qs)}
+        if params:
+            d["params"] = list(params)
+        return d
+    def bar(*qs, label=None):
+        d = {"name": "barrier", "qubits": list(qs)}
+        if label:
+            d["label"] = label
+        return d
+    def blocks(nq, pairs):
+        out = []
+        for a, b in pairs:
+            out += [g("ry", a, params=[0.4 + 0.1 * a]), g("cx", a, b)]
+        return out
+    def tail(qs):
+        return [g("rx", q, params=[0.3 + 0.25 * q]) for q in qs]
+    cx = {"kind": "gate", "gate": "cx", "params": []}
+    rzz = {"kind": "gate", "gate": "rzz", "params": [0.4]}
+    progs = []
+    two = blocks(4, [(0, 1), (2, 3)])
+    for b in ([bar(1, 2)], [bar(0, 1, 2, 3)], [bar(3, 0)], [bar(0, 1, 2)], [bar(2, 1, label="sync")], []):
+        progs.append((4, [4], two + b + tail([1, 3]), [], ["ZZZZ", "XIYI", "IZXY"]))
+    progs.append((4, [2, 2], [bar(1, 2)] + two + tail([0, 2]), [], ["ZXYZ", "IIZZ"]))
+    progs.append((4, [1, 3], two + tail([1, 3]) + [bar(0, 3)], [], ["YZXI", "ZZII"]))
+    three = blocks(6, [(0, 1), (2, 3), (4, 5)])
+    for b in ([bar(1, 2)], [bar(1, 4)], [bar(1, 2), bar(3, 4)], [bar(0, 1, 2, 3, 4, 5)], [bar(5, 0), bar(2, 3)], [bar(1, 2, 4)]):
+        progs.append((6, [2, 4], three + b + tail([0, 3, 5]), [], ["ZZZZZZ", "XIYIZI", "IZXYIX"]))
+    # interleaved groups, one-qubit-gate-only wires, a qubit touched by nothing but the barrier, idle qubits
+    progs.append((4, [4], blocks(4, [(0, 2), (1, 3)]) + [bar(0, 1)] + tail([2, 3]), [], ["ZXZX", "YIIZ"]))
+    progs.append((3, [1, 2], [g("h", 0), g("h", 1), g("sx", 2), bar(0, 1), g("t", 1)], [], ["XYZ", "ZIZ"]))
+    progs.append((4, [4], [g("h", 0), g("cx", 0, 1), bar(1, 2), g("s", 1)], [], ["ZZXI", "XYII"]))
+    progs.append((5, [2, 3], blocks(5, [(0, 1), (3, 4)]) + [bar(1, 3)] + tail([0, 4]), [], ["ZZIXY", "XIIZI"]))
+    progs.append((5, [5], blocks(5, [(0, 1), (3, 4)]) + [bar(0, 1, 3, 4)], [], ["ZYIXZ"]))
+    # pre-placed cut gates (ignored by the automatic labelling) next to a bridging barrier
+    pre = lambda qs, b: {"name": "qpd_2q", "qubits": qs, "basis": b, "label": None}
+    progs.append((5, [2, 3], [g("h", 0), g("cx", 0, 1), g("h", 2), g("cx", 2, 3), pre([1, 2], 0), bar(0, 3)], [cx], ["ZZZZI", "XYXYI"]))
+    progs.append((4, [4], two + [pre([1, 2], 0), bar(1, 2)] + tail([0, 3]), [rzz], ["ZZZZ", "IXYI"]))
+    progs.append((6, [3, 3], three + [pre([1, 2], 0), bar(3, 4), pre([5, 0], 1)] + tail([2, 4]), [cx, rzz], ["ZXYZXY", "IZIZIZ"]))
+    progs.append((4, [4], two + [pre([1, 2], 0)] + tail([0, 3]), [cx], ["ZZZZ", "IXYI"]))      # control: no barrier
+    for nq, qregs, instrs, bases, obs in progs:
+        o = [{"l": l, "p": 0} for l in obs]
+        base = {"nq": nq, "qregs": qregs, "instrs": instrs, "pool_idx": [0, 1], "bases": bases, "cregs": [], "prewarm": False,
+                "always_oracle": True}
+        yield ("partition_problem", dict(base, labels=None, obs=o))
+        if not bases:
+            yield ("separate", dict(base, labels=None, obs=None))
+    # controls with explicit labels: the barrier is split (AABB) or lies inside one partition (AAAA)
+    for labels in ([0, 0, 1, 1], [0, 0, 0, 0]):
+        yield ("partition_problem", {"nq": 4, "qregs": [4], "instrs": two + [bar(1, 2)] + tail([1, 3]), "labels": labels, "pool_idx": [0, 1],
+                                     "obs": [{"l": "ZZZZ", "p": 0}, {"l": "XIYI", "p": 0}], "bases": [], "cregs": [], "prewarm": False,
+                                     "always_oracle": True})
+
+
 def cases(rng, tier):
+    yield from _bridge_barrier_cases()
     yield from _numbered_label_cases()
     N = 150 if tier == "quick" else 2500
     for k in range(4 if tier == "quick" else 40):
@@ -388,6 +450,34 @@ def _oracle_partition_problem(payload, real, used):
     if res["subobs"] is not None:
         if sorted(map(repr, [l for l, _ in res["subobs"]])) != sorted(map(repr, keys)):
             return f"sub-observable keys {[l for l, _ in res['subobs']]} differ from subcircuit keys {keys}"
+    if labs is None:
+        # automatic labelling: the partitions are the connected components of the non-placeholder instructions (a barrier is one of them),
+        # numbered by their lowest qubit; untouched qubits belong to none.  One subcircuit per component, of that component's width, and
+        # sub-observables for exactly these, of the same width, recombining to the input on the component's qubits in ascending order
+        roots = []
+        for q in range(nq):
+            if eff[q] is not None and eff[q] not in roots:
+                roots.append(eff[q])
+        comps = [[q for q in range(nq) if eff[q] == r] for r in roots]
+        if not legit:
+            got_w = {repr(l): c["nq"] for l, c in res["subcircuits"]}
+            want_w = {repr(k): len(qs) for k, qs in enumerate(comps)}
+            if got_w != want_w:
+                return (f"automatic labelling: subcircuits (label: width) {got_w} do not match the connected groups of qubits {comps} "
+                        f"(expected {want_w}); every instruction, barriers included, connects the qubits it acts on")
+            if res["subobs"] is not None and obs:
+                so = {repr(l): v for l, v in res["subobs"]}
+                for k, o in enumerate(obs):
+                    rebuilt = ["I"] * nq
+                    for j, qs in enumerate(comps):
+                        sub = so[repr(j)][k]
+                        if len(sub["l"]) != len(qs) or sub["p"] != 0:
+                            return (f"sub-observable {k} of partition {j} is {sub['l']!r}: it acts on {len(sub['l'])} qubits, "
+                                    f"its subcircuit on {len(qs)} (or it carries a phase)")
+                        for x, q in enumerate(qs):
+                            rebuilt[q] = sub["l"][x]
+                    if "".join(rebuilt) != o["l"]:
+                        return f"the sub-observables of {o['l']} recombine to {''.join(rebuilt)}"
     if labs is not None and res["subobs"] is not None and obs:
         so = {repr(l): v for l, v in res["subobs"]}
         for k, o in enumerate(obs):
